@@ -3,6 +3,7 @@ package props
 import (
 	"encoding/json"
 	"fmt"
+	"io"
 	"strings"
 
 	smtp "github.com/emersion/go-smtp"
@@ -21,6 +22,7 @@ type c19Case struct {
 	Len   int    `json:"len"` // total line length, CRLF included
 	Pos   string `json:"pos"` // first | later | auth | afterdata | afterchunk | afterrefused | mailline
 	Split bool   `json:"split"`
+	Debug bool   `json:"debug"` // Server.Debug is set (the traffic is copied to a writer)
 
 	State string `json:"state"` // fresh greeted mail rcpt bdat
 	Line  []byte `json:"line"`
@@ -45,7 +47,7 @@ func c19Run(ctx *core.Ctx) {
 	if ctx.Thorough() {
 		nFuzz, shortLen = 5000000, 5
 	}
-	ctx.Rule = fmt.Sprintf("limits {32,64,2000} x total line lengths {limit-2..limit+3, 3*limit} x position {first line, later line, MAIL line, inside an AUTH exchange, after DATA, after a non-LAST BDAT chunk, after a refused BDAT} x {one segment, two segments}; endless lines fed in 512-octet segments; all strings of length <=%d over {NUL,CR,LF,SP,'A','a',':','<',0xFF} as command lines in 5 session states; %d seeded binary lines / token soups; mixes of valid commands with 3..6 invalid ones. Oracles: ErrorLog tap (recovered panics), consumption counter of the transport, reply parser, backend log. Non-trivial: every case (hostile by construction); distinct by case.", shortLen, nFuzz)
+	ctx.Rule = fmt.Sprintf("limits {32,64,2000} x total line lengths {limit-2..limit+3, 3*limit} x position {first line, later line, MAIL line, inside an AUTH exchange, after DATA, after a non-LAST BDAT chunk, after a refused BDAT} x {one segment, two segments} x Server.Debug {unset, set}; endless lines fed in 512-octet segments; all strings of length <=%d over {NUL,CR,LF,SP,'A','a',':','<',0xFF} as command lines in 5 session states; %d seeded binary lines / token soups (a third of them MAIL/RCPT lines with a valid path and a soup of parameter fragments: truncated xtext hexchars, utf-8-addr escapes, dates, lists; every extension enabled); mixes of valid commands with 3..6 invalid ones. Oracles: ErrorLog tap (recovered panics), consumption counter of the transport, reply parser, backend log. Non-trivial: every case (hostile by construction); distinct by case.", shortLen, nFuzz)
 	ctx.Assumptions = []string{"lines of exactly limit+1 octets are not judged", "short lines that share a segment with an over-long one are not judged", "an unrecovered panic kills the child process and is reported by the parent as <id>:process-crash"}
 	core.RunCases(ctx, func(emit func(c19Case)) {
 		for _, limit := range []int{32, 64, 2000} {
@@ -55,6 +57,7 @@ func c19Run(ctx *core.Ctx) {
 					for _, split := range []bool{false, true} {
 						for _, mode := range []srvMode{modeSMTP, modeLMTPRcpt} {
 							emit(c19Case{Kind: "length", Limit: limit, Len: L, Pos: pos, Split: split, Mode: mode})
+							emit(c19Case{Kind: "length", Limit: limit, Len: L, Pos: pos, Split: split, Mode: mode, Debug: true})
 						}
 					}
 				}
@@ -71,7 +74,7 @@ func c19Run(ctx *core.Ctx) {
 			}
 		})
 		for i := 0; i < nFuzz; i++ {
-			emit(c19Case{Kind: "fuzz", Seed: uint64(i), State: c19States[i%len(c19States)]})
+			emit(c19Case{Kind: "fuzz", Seed: ctx.Seed<<32 | uint64(i), State: c19States[i%len(c19States)]})
 		}
 		for nbad := 3; nbad <= 6; nbad++ {
 			for _, mix := range []string{"consecutive", "interleaved", "afterenvelope", "rset-between", "hello-between", "message-between"} {
@@ -115,6 +118,8 @@ func c19Rig(mode srvMode, limit int) *wire.Rig {
 	rig := wire.NewRig(kind, func(s *smtp.Server) {
 		s.LMTP = mode.lmtp()
 		s.AllowInsecureAuth = true
+		// every extension on, so that hostile parameters reach their decoders
+		s.EnableSMTPUTF8, s.EnableREQUIRETLS, s.EnableBINARYMIME, s.EnableDSN, s.EnableRRVS = true, true, true, true, true
 		if limit > 0 {
 			s.MaxLineLength = limit
 		}
@@ -156,14 +161,17 @@ func c19Enter(p *wire.Peer, mode srvMode, state string) bool {
 }
 
 func c19Length(ctx *core.Ctx, c c19Case) {
-	ctx.Eval(fmt.Sprintf("length|%d|%d|%s|%v|%s", c.Limit, c.Len, c.Pos, c.Split, c.Mode), true)
+	ctx.Eval(fmt.Sprintf("length|%d|%d|%s|%v|%s|%v", c.Limit, c.Len, c.Pos, c.Split, c.Mode, c.Debug), true)
 	rig := c19Rig(c.Mode, c.Limit)
+	if c.Debug {
+		rig.Srv.Debug = io.Discard
+	}
 	if c.Pos == "afteroverlimit" {
 		rig.Srv.MaxMessageBytes = 10
 	}
 	p := rig.Dial()
 	fail := func(sig, msg string, rs []wire.Reply) {
-		ctx.Violate(sig, msg+fmt.Sprintf(" [limit=%d len=%d pos=%s split=%v mode=%s]", c.Limit, c.Len, c.Pos, c.Split, c.Mode), c, witness(rig.Log, rs))
+		ctx.Violate(sig, msg+fmt.Sprintf(" [limit=%d len=%d pos=%s split=%v mode=%s debug=%v]", c.Limit, c.Len, c.Pos, c.Split, c.Mode, c.Debug), c, witness(rig.Log, rs))
 	}
 	// the probe line: total length c.Len including CRLF
 	mk := func(prefix string) []byte {
@@ -359,6 +367,28 @@ func c19Endless(ctx *core.Ctx, c c19Case) {
 	}
 }
 
+// c19ParamSoup builds a MAIL or RCPT line with a valid path followed by a soup of parameter
+// fragments (complete and truncated xtext hexchars, utf-8-addr escapes, dates, lists): input that
+// gets past the command and path parsers and into the parameter decoders. The second result is
+// the session state the line is meant for.
+func c19ParamSoup(seed uint64) ([]byte, string) {
+	r := core.NewRand(seed, 192)
+	toks := []string{"AUTH=", "ENVID=", "ORCPT=", "rfc822;", "utf-8;", "NOTIFY=", "RRVS=", "SIZE=", "BODY=", "RET=", "SMTPUTF8", "REQUIRETLS",
+		"+", "+4", "+4G", "+3C", "+3E", "+2B", "+00", "+FF", "+f", "<>", "<", ">", "\\x{", "\\x{2B}", "\\x{110000}", "\\x{D800}", "\\x{0}", "\\x{}", "}", "{", "x@y", "a@b.test", ";", ",", "=", " ", "  ", "\t",
+		"2014-04-03T23:01:00Z", "2014-04-03T23:01:00+25:00", "9999-99-99T99:99:99Z", ";C", "NEVER", "SUCCESS", "FAILURE", "DELAY", "FULL", "HDRS", "7BIT", "8BITMIME", "BINARYMIME", "9BIT",
+		"0", "1", "18446744073709551616", "9223372036854775807", "-", "\x00", "\xff", "\xc3", "\xc3\xa9", "\""}
+	line, state := "MAIL FROM:<a@b.test>", "greeted"
+	if r.Bool() {
+		line, state = "RCPT TO:<a@b.test>", "mail"
+	}
+	n := 1 + r.Intn(8)
+	b := []byte(line + " ")
+	for i := 0; i < n; i++ {
+		b = append(b, toks[r.Intn(len(toks))]...)
+	}
+	return b, state
+}
+
 func c19FuzzLine(seed uint64) []byte {
 	r := core.NewRand(seed, 191)
 	toks := []string{"EHLO", "HELO", "LHLO", "MAIL", "RCPT", "DATA", "BDAT", "RSET", "NOOP", "QUIT", "AUTH", "STARTTLS", "VRFY", " FROM:", " TO:", "<", ">", "@", ":", " ", "\r\n", "\n", "\r", ".", "LAST", "0", "1", "99999999999", "-1", "=", "SIZE=", "BODY=", "SMTPUTF8", "PLAIN", "*", "\x00", "\xff", "\t", "\"", "\\", "a", "x.test", "4294967295", "4294967296", "+", "NOTIFY=", "ORCPT=", "rfc822;", "utf-8;", "\\x{", "}", "RET=", "ENVID=", "RRVS=", ";", ","}
@@ -381,6 +411,9 @@ func c19Garbage(ctx *core.Ctx, c c19Case) {
 	line := c.Line
 	if c.Kind == "fuzz" {
 		line = c19FuzzLine(c.Seed)
+		if c.Seed%3 == 1 {
+			line, c.State = c19ParamSoup(c.Seed)
+		}
 	}
 	ctx.Eval(fmt.Sprintf("%s|%s|%q", c.Kind, c.State, line), true)
 	rig := c19Rig(modeSMTP, 0)
